@@ -464,7 +464,11 @@ impl PB<'_> {
             7 => {
                 let a = self.expr(Kind::Int, d);
                 let sh = {
-                    let v = self.rng.below(70) as i128 - 20;
+                    let v = match self.rng.below(12) {
+                        0 => *self.rng.pick(&[65535i128, 65536, -65535, -65536, 1 << 20, 255, 256, -256]),
+                        1 => self.rng.below(3000) as i128 - 1500,
+                        _ => self.rng.below(70) as i128 - 20,
+                    };
                     let b = int_bytes(v);
                     let n = self.atom(&b);
                     self.q(n)
@@ -527,7 +531,11 @@ impl PB<'_> {
             3 | 4 => {
                 let s = self.expr(Kind::Bytes, d);
                 let i1 = {
-                    let v = self.rng.below(6) as i128;
+                    let v = match self.rng.below(10) {
+                        0 => *self.rng.pick(&[-1i128, 1 << 31, (1 << 32) + 1, 70000]),
+                        1 => self.rng.below(5000) as i128,
+                        _ => self.rng.below(6) as i128,
+                    };
                     let n = self.atom(&int_bytes(v));
                     self.q(n)
                 };
@@ -558,8 +566,17 @@ impl PB<'_> {
                 let p = self.expr(Kind::Bytes32, d);
                 let ph = self.expr(Kind::Bytes32, d);
                 let amt = {
-                    let v = self.rng.below(1 << 40) as i128;
-                    let n = self.atom(&int_bytes(v));
+                    let b = match self.rng.below(8) {
+                        0 => int_bytes(-(self.rng.below(1000) as i128) - 1),
+                        1 => {
+                            let mut b = int_bytes(self.rng.below(1 << 20) as i128 + 1);
+                            b.insert(0, 0);
+                            b
+                        }
+                        2 => int_bytes((u64::MAX as i128) + self.rng.below(3) as i128 - 1),
+                        _ => int_bytes(self.rng.below(1 << 40) as i128),
+                    };
+                    let n = self.atom(&b);
                     self.q(n)
                 };
                 self.op1(48, &[p, ph, amt])
